@@ -145,6 +145,7 @@ h("cont.H_OptionalFault", map[string]int{"rounds": 3, "order_schemes": 1}, map[s
 			h("cont.H_Dispose", dsp(1, 3, 3, 0, 1, 0, 0), dsp(1, 3, 4, 1, 1, 0, 0), dspCov, 0, dspDesc),
 			h("cont.H_Dispose", with(dsp(0, 2, 4, 0, 1, 0, 0), "tree", 1, "closepanic", 1), with(dsp(0, 2, 4, 1, 2, 0, 0), "tree", 1, "closepanic", 1), dspCov, 10, dspDesc),
 			h("cont.H_Dispose", with(dsp(0, 2, 4, 0, 1, 0, 1), "tree", 1), with(dsp(0, 2, 4, 1, 2, 0, 1), "tree", 1), dspCov, 0, dspDesc),
+			h("cont.H_Faults", map[string]int{"order_schemes": 1}, map[string]int{"order_schemes": 2}, []string{"built", "build_failed", "resolution_failed"}, 0, "(C11 around failures) dependency chain 0->1->2 with symbolic lifetimes, one constructor failing once at a symbolic invocation during Build or a resolution, retries, then the scope and the provider are closed: within one scope an instance is closed before the non-singleton instances it received - also when a failed construction lies between their creation and the Close"),
 		}},
 		propertySpec{ID: "C12", Harnesses: []harnessSpec{
 			h("cont.H_Dispose", dsp(1, 2, 3, 1, 2, 0, 1), dsp(1, 3, 3, 1, 2, 0, 1), dspCov, 20, dspDesc),
@@ -233,23 +234,22 @@ h("cont.H_OptionalFault", map[string]int{"rounds": 3, "order_schemes": 1}, map[s
 	}
 	hc := h("cont.H_Conc", conc(1), conc(1), []string{"both_done"}, 10, concDesc)
 	hrace := h("cont.H_Conc", map[string]int{"ops": 1, "order_schemes": 1, "race": 1, "worlds": 4}, map[string]int{"ops": 1, "order_schemes": 1, "race": 1, "worlds": 4}, []string{"both_done"}, 0, concDesc+"; with the VM's happens-before (vector clock) race detector on every memory cell and map the container's own code touches; a race is confirmed by Go's race detector on free-running native goroutines")
-	hc1 := hc // hrace explores the same space with the race detector on: the plain run stays small in the quick tier
-	hc1.Quick = map[string]int{"ops": 1, "order_schemes": 1, "worlds": 1}
 	hrace2 := hrace
-	hrace2.Quick = map[string]int{"ops": 1, "order_schemes": 1, "race": 1, "worlds": 1}
+	hrace2.Quick = map[string]int{"ops": 1, "order_schemes": 1, "race": 1, "worlds": 1, "vars": 1}
 	hrace2.Thorough = map[string]int{"ops": 2, "order_schemes": 1, "race": 1, "worlds": 1}
 	const g2Desc = "; G2 scheduling: on top of the switches at user callbacks, up to `g2` involuntary context switches, each placed by the solver in front of any mutex acquisition, atomic operation or sync.Map operation executed by godi's own code (vm.isSyncOp) - interleavings between two container-internal synchronisation operations; counterexamples are replayed natively on a runner built from instrumented copies of godi's current sources (gosym instrument: the same points call the baton)"
-	hg2 := h("cont.H_Conc", map[string]int{"ops": 1, "order_schemes": 1, "worlds": 1, "vars": 1, "g2": 1}, map[string]int{"ops": 1, "order_schemes": 1, "worlds": 4, "vars": 3, "g2": 1}, []string{"both_done"}, 0, concDesc+g2Desc)
-	hnochild := h("cont.H_Conc", map[string]int{"ops": 1, "order_schemes": 1, "worlds": 2, "nochild": 2, "vars": 1}, map[string]int{"ops": 1, "order_schemes": 1, "worlds": 4, "nochild": 2, "vars": 3}, []string{"both_done"}, 0, concDesc+"; here the shared scope has NO child of its own when the operations start (a scope without children takes another path through Close); a scope handed out by a CreateScope that overlapped the Close of its parent must be closed (context cancelled, goroutines gone)")
+	hg2 := h("cont.H_Conc", map[string]int{"ops": 1, "order_schemes": 1, "worlds": 1, "vars": 1, "g2": 1}, map[string]int{"ops": 1, "order_schemes": 1, "worlds": 1, "vars": 3, "g2": 1}, []string{"both_done"}, 0, concDesc+g2Desc)
+	hnochild := h("cont.H_Conc", map[string]int{"ops": 1, "order_schemes": 1, "worlds": 2, "nochild": 2, "vars": 1, "cctx": 1}, map[string]int{"ops": 1, "order_schemes": 1, "worlds": 4, "nochild": 2, "vars": 3, "cctx": 1}, []string{"both_done"}, 0, concDesc+"; here the shared scope has NO child of its own when the operations start (a scope without children takes another path through Close); a scope handed out by a CreateScope that overlapped the Close of its parent must be closed (context cancelled, goroutines gone)")
+	hg2w1 := h("cont.H_Conc", map[string]int{"ops": 1, "order_schemes": 1, "worlds": 2, "world_only": 1, "vars": 1, "g2": 1, "yieldclose": 0, "opset": 1}, map[string]int{"ops": 1, "order_schemes": 1, "worlds": 2, "world_only": 1, "vars": 3, "g2": 1, "yieldclose": 0, "opset": 0}, []string{"both_done"}, 0, concDesc+g2Desc+"; here: the world with a scoped initializer (scope creation runs user code and resolves its parameters), Close methods do not yield (the G1 x G2 product with yielding Close methods is out of reach: one operation pair alone has 370 000 schedules), operation pairs with at least one closing operation")
 	hcb := h("cont.H_CloseInCallback", map[string]int{"order_schemes": 1}, map[string]int{"order_schemes": 2}, []string{"callback_closed"}, 10, cbDesc)
 	properties = append(properties,
-		propertySpec{ID: "C09", Harnesses: []harnessSpec{hc1, hcb, hrace, hrace2, hg2,
+		propertySpec{ID: "C09", Harnesses: []harnessSpec{hcb, hrace, hrace2, hg2, hg2w1,
 			h("cont.H_SharedCodeConc", map[string]int{"rounds": 1, "race": 1, "g2": 1, "order_schemes": 1}, map[string]int{"rounds": 2, "race": 1, "g2": 1, "order_schemes": 1}, []string{"both_done"}, 0, "(race detector on, G2 scheduling with one pre-emption in front of any lock / atomic / sync.Map operation of godi, i.e. inside the analyzer's cache and the scope tables) constructors sharing code resolved by two goroutines in their own scopes; no race, no panic, no error, each service built by its own constructor"),
 			h("cont.H_SharedCodeConc", map[string]int{"rounds": 2, "order_schemes": 1}, map[string]int{"rounds": 2, "order_schemes": 1}, []string{"both_done"}, 10, "(happens-before race detector on) scoped or transient services whose constructors share code - reflect.MakeFunc values of two different signatures (natively one code pointer, so the analysis cache keeps being rewritten after Build), or closures of one literal under two names with a yielding dependency - resolved alternately by two goroutines in their own scopes; every interleaving at the resolution boundaries; no race, no panic, no error, each service built by its own constructor"),
 		}},
 		propertySpec{ID: "C13", Harnesses: []harnessSpec{
 			h("cont.H_Closed", map[string]int{"order_schemes": 2}, map[string]int{"order_schemes": 4}, []string{"close_node", "cancel_scope_ctx", "cancel_child_ctx"}, 20, closedDesc),
-			hcb, hc, hg2,
+			hcb, hc, hg2, hg2w1,
 			h("cont.H_Dispose", with(dsp(0, 2, 4, 0, 1, 0, 1), "tree", 1), with(dsp(0, 2, 4, 1, 2, 0, 1), "tree", 1), dspCov, 0, dspDesc),
 		}},
 	)
@@ -294,6 +294,9 @@ h("cont.H_OptionalFault", map[string]int{"rounds": 3, "order_schemes": 1}, map[s
 			properties[i].Harnesses = append(properties[i].Harnesses, hx)
 			if properties[i].ID == "C02" {
 				properties[i].Harnesses = append(properties[i].Harnesses, hg2)
+			}
+			if properties[i].ID == "C12" {
+				properties[i].Harnesses = append(properties[i].Harnesses, h("cont.H_Conc", map[string]int{"ops": 1, "order_schemes": 1, "worlds": 1, "vars": 1, "g2": 1, "closeerr": 1, "opset": 4}, map[string]int{"ops": 1, "order_schemes": 1, "worlds": 1, "vars": 3, "g2": 2, "closeerr": 1, "opset": 4}, []string{"both_done", "same_node_closed_twice"}, 0, concDesc+g2Desc+"; here: instances whose Close fails exist in the shared scope and its child, both operations are closing operations (Close of the scope, its child, the provider, cancellation): of two concurrent Close calls on one node at most one returns the disposal error, nothing is closed twice or skipped"))
 			}
 			if properties[i].ID == "C10" {
 				properties[i].Harnesses = append(properties[i].Harnesses, hcb)
